@@ -1,22 +1,23 @@
-(** Property C09 -- later transactions never change results already computed for earlier periods.
-    The matching of events at or before T is a prefix of the matching of any extension whose
-    additional lots and events are all dated after T (stated on the specification; the model
-    equals the specification by Proofs/MatcherRefine.v). *)
+(** Property C09 -- later transactions never change results already computed for earlier periods. *)
 From RP2V Require Import Base.Prelude Base.Time Base.Dec Model.Types Model.Generated Model.Matcher Model.MatchSpec Model.MatchWf
-  Proofs.SpecPrefix.
+  Proofs.MatcherProps.
 Open Scope Z_scope.
 
+(** the matching computed by the matcher (as the code has it) for the history up to T is a prefix of
+    the matching of any extension whose additional lots and events are all dated after T -- in
+    particular for continuations containing lots the method would prefer; and a history that
+    fails up to T fails with any continuation *)
 Theorem C09_prefix_stable : forall lots lots2 sched evs evs2 T,
   (forall e, In e evs -> e_us e <= T) -> (forall e, In e evs2 -> T < e_us e) ->
   (forall l, In l lots -> utc_us (i_ts l) <= T) -> (forall l, In l lots2 -> T < utc_us (i_ts l)) ->
-  wf (lots ++ lots2) sched (evs ++ evs2) ->
-  match spec_run lots sched evs with
-  | Ok fs1 => match spec_run (lots ++ lots2) sched (evs ++ evs2) with
+  wf lots sched evs -> wf (lots ++ lots2) sched (evs ++ evs2) ->
+  match run_matcher gen_always_repush lots sched evs with
+  | Ok fs1 => match run_matcher gen_always_repush (lots ++ lots2) sched (evs ++ evs2) with
               | Ok fs => exists fs2, fs = fs1 ++ fs2 /\ (forall f, In f fs2 -> exists e, In e evs2 /\ e_row e = f_ev f)
               | Err _ => True
               end
-  | Err x => spec_run (lots ++ lots2) sched (evs ++ evs2) = Err x
+  | Err x => run_matcher gen_always_repush (lots ++ lots2) sched (evs ++ evs2) = Err x
   end.
-Proof. exact spec_prefix_stable. Qed.
+Proof. exact m_prefix_stable. Qed.
 
 Print Assumptions C09_prefix_stable.
